@@ -7,7 +7,7 @@ use std::convert::TryFrom;
 use std::str::FromStr;
 use unic_locale::subtags::{Language, Region, Script, Variant};
 
-pub const RULE: &str = "Domain: every byte string of length 0-3 (exhaustive, 16 843 009 strings; thorough: also every byte string of length 4, 2^32), every string of length 4-6 over a 24-byte boundary alphabet (exhaustive), lengths 6-9 over a 6-byte alphabet (exhaustive), every single-byte substitution (256 values x position) of valid subtags of every legal length, and weighted random bytes (proptest). Each string is fed to Language/Script/Region/Variant::from_bytes and compared with byte-level predicates written from the EBNF; on accept as_str/Display/==&str/FromStr must expose lower/Title/UPPER/lower text. Non-trivial = accepted by at least one type, or rejected although its length is one some type accepts and every byte is ASCII alphanumeric (class boundary). Enumerated cases are distinct by construction; random ones are counted through a hash set.";
+pub const RULE: &str = "Domain: every byte string of length 0-3 (exhaustive, 16 843 009 strings; thorough: also every byte string of length 4, 2^32), every string of length 4-6 over a 24-byte boundary alphabet (exhaustive), lengths 6-9 over a 6-byte alphabet (exhaustive), every lower-case alphanumeric string of length 4 and lower-case letter string of length 5 (thorough: alphanumeric length 5; exhaustive), the special words of other standards in every letter case, every single-byte substitution (256 values x position) of valid subtags of every legal length, and weighted random bytes (proptest). Each string is fed to Language/Script/Region/Variant::from_bytes and compared with byte-level predicates written from the EBNF; on accept as_str/Display/==&str/FromStr must expose lower/Title/UPPER/lower text. Non-trivial = accepted by at least one type, or rejected although its length is one some type accepts and every byte is ASCII alphanumeric (class boundary). Enumerated cases are distinct by construction; random ones are counted through a hash set.";
 
 pub const BOUNDARY: &[u8] = &[
     b'a', b'z', b'A', b'Z', b'm', b'0', b'9', b'5', b'@', b'[', b'`', b'{', b'/', b':', b'-', b'_', b'.', b' ',
@@ -41,10 +41,19 @@ where
 /// `random` = Some(maxlen): the case does not come from an enumeration; it is counted as
 /// non-trivial only if it lies outside every exhaustively enumerated sub-space.
 pub fn check(b: &[u8], st: &mut Stats, random: Option<u32>) {
-    netted(st, || case_of(b), b.len(), |st| check_inner(b, st, random));
+    netted(st, || case_of(b), b.len(), |st| check_inner(b, st, random, false));
 }
 
-fn check_inner(b: &[u8], st: &mut Stats, random: Option<u32>) {
+/// a case of a further exhaustive space (distinct by construction within it): counted exactly
+/// unless one of the earlier enumerations already held it
+pub fn check_enum2(b: &[u8], st: &mut Stats, maxlen: u32) {
+    netted(st, || case_of(b), b.len(), |st| check_inner(b, st, Some(maxlen), true));
+}
+
+/// set by run(): the thorough tier enumerates every byte string of length 4
+static ALL_LEN4: std::sync::atomic::AtomicBool = std::sync::atomic::AtomicBool::new(false);
+
+fn check_inner(b: &[u8], st: &mut Stats, random: Option<u32>, exact: bool) {
     st.eval();
     let mut accepted_any = false;
     let ascii_alnum = b.iter().all(|c| model::is_alnum(*c));
@@ -284,10 +293,15 @@ fn check_inner(b: &[u8], st: &mut Stats, random: Option<u32>) {
         if let Some(maxlen) = random {
             let l = b.len() as u32;
             let enumerated = l <= 3
+                || (l == 4 && ALL_LEN4.load(std::sync::atomic::Ordering::Relaxed))
                 || (l <= maxlen && b.iter().all(|c| BOUNDARY.contains(c)))
                 || (l > maxlen && l <= 9 && b.iter().all(|c| SMALL.contains(c)));
             if !enumerated {
-                st.nontrivial(h, || case_of(b));
+                if exact {
+                    st.nontrivial_enum(h, || case_of(b));
+                } else {
+                    st.nontrivial(h, || case_of(b));
+                }
             }
         } else {
             st.nontrivial_enum(h, || case_of(b));
@@ -338,6 +352,7 @@ pub fn run(cfg: &Cfg) -> Stats {
 
     // thorough: every byte string of length 4 (2^32) - the length at which script, the digit-led
     // variant form and the invalid 4-letter language meet
+    ALL_LEN4.store(cfg.tier == Tier::Thorough, std::sync::atomic::Ordering::Relaxed);
     if cfg.tier == Tier::Thorough {
         let n4: u64 = 1 << 32;
         let s = par_range(n4, |i, st| {
@@ -362,6 +377,26 @@ pub fn run(cfg: &Cfg) -> Stats {
         });
         total = total.merge(s);
         total.subspace(&format!("24-byte boundary alphabet, length {len}"), n, true);
+    }
+    // every lower-case alphanumeric string of length 4 and every lower-case letter string of
+    // length 5 (thorough: alphanumeric too): words that mean something elsewhere (root, posix, true,
+    // null ...) are in here whatever they are - an alias table reacts to exactly one of them
+    {
+        const AN: &[u8] = b"abcdefghijklmnopqrstuvwxyz0123456789";
+        let spaces: Vec<(usize, u32)> = if cfg.tier == Tier::Thorough { vec![(36, 5)] } else { vec![(36, 4), (26, 5)] };
+        for (base, len) in spaces {
+            let n = (base as u64).pow(len);
+            let s = par_range(n, |mut i, st| {
+                let mut buf = [0u8; 9];
+                for k in 0..len as usize {
+                    buf[k] = AN[(i % base as u64) as usize];
+                    i /= base as u64;
+                }
+                check_enum2(&buf[..len as usize], st, maxlen);
+            });
+            total = total.merge(s);
+            total.subspace(&format!("every string of length {len} over the {base} lower-case {}", if base == 36 { "letters and digits" } else { "letters" }), n, true);
+        }
     }
     // small alphabet, remaining lengths up to 9
     for len in (maxlen + 1)..=9 {
@@ -404,6 +439,19 @@ pub fn run(cfg: &Cfg) -> Stats {
     // full-width, Cyrillic), and language-shaped words that begin with "und"
     let words: Vec<&str> = vec!["en", "ast", "abcde", "kana", "Kana", "latn", "us", "sk", "419", "1abc", "valencia", "kiswa", "sinak", "isiks", "und"];
     let mut extra: Vec<Vec<u8>> = crate::props::spaces::sanitisation_slips(&words);
+    for w in crate::props::spaces::SPECIAL_WORDS.iter().filter(|w| w.len() <= 6 && w.is_ascii()) {
+        // every letter-case image (<= 64 of them)
+        let letters: Vec<usize> = w.bytes().enumerate().filter(|(_, c)| c.is_ascii_alphabetic()).map(|(i, _)| i).collect();
+        for mask in 0u32..(1 << letters.len()) {
+            let mut v = w.to_ascii_lowercase().into_bytes();
+            for (bit, pos) in letters.iter().enumerate() {
+                if (mask >> bit) & 1 == 1 {
+                    v[*pos] = v[*pos].to_ascii_uppercase();
+                }
+            }
+            extra.push(v);
+        }
+    }
     for w in ["undef", "undine", "undefine", "UNDEF", "Undine", "unde", "und1", "undu", "undundun", "un", "nd", "dun", "und-", "und\0"] {
         extra.push(w.as_bytes().to_vec());
     }
